@@ -44,6 +44,40 @@ type revEnv struct {
 	client *core.Client
 	k      int32
 	listen chan struct{} // closed when Provider.Listen has returned
+	extra  []*revEnv     // further providers (ids of their own) at the same caller
+	id     string        // this provider's id ("prov1" when empty)
+}
+
+// addProvider starts another provider with an id of its own at the same caller.
+func (e *revEnv) addProvider(id string) *revEnv {
+	x := &revEnv{t: e.t, caller: e.caller, id: id}
+	x.client = core.NewClient(e.env.URL)
+	x.client.Timeout = 10 * time.Second
+	x.prov = reverse.NewProvider(x.client, id)
+	x.prov.RetryInterval = 10 * time.Millisecond
+	x.prov.AddFunction(func(payload string) string {
+		if cc, n, ok := muxParse([]byte(payload)); ok {
+			e.t.Emit(tr.Rec{"ev": "answer", "c": cc, "n": n})
+		}
+		return payload
+	}, "echo")
+	x.start()
+	e.extra = append(e.extra, x)
+	return x
+}
+
+// stopProvider ends a provider's Listen (see close).
+func (e *revEnv) stopProvider() {
+	go e.prov.Close()
+	for i := 0; i < 100 && e.listen != nil; i++ {
+		select {
+		case <-e.listen:
+			i = 100
+		case <-time.After(20 * time.Millisecond):
+			go e.client.Invoke("!!", nil)
+		}
+	}
+	e.client.Abort()
 }
 
 func (e *revEnv) start() {
@@ -81,6 +115,9 @@ func newRevEnv(t *tr.Writer, c c09Case, idle, timeout time.Duration, delays []in
 }
 
 func (e *revEnv) close() {
+	for _, x := range e.extra {
+		x.stopProvider()
+	}
 	go e.prov.Close()
 	// Close ends a poll only if its responder is registered at that moment: repeat the stop request until
 	// Listen has returned (a poll left waiting would keep the mock server from closing)
@@ -109,6 +146,11 @@ func (e *revEnv) close() {
 // invoke issues call (cc, n) and emits callB / ret.
 func (e *revEnv) invoke(cc, n int, bound int) {
 	e.t.Emit(tr.Rec{"ev": "callB", "c": cc, "n": n})
+	e.invokeBegun(cc, n, bound)
+}
+
+// invokeBegun: the call whose callB has been emitted already (nothing between a barrier and the call)
+func (e *revEnv) invokeBegun(cc, n int, bound int) {
 	t0 := time.Now()
 	var r muxRet
 	func() {
@@ -117,7 +159,11 @@ func (e *revEnv) invoke(cc, n int, bound int) {
 				r = muxRet{kind: "err", err: fmt.Sprintf("ESCAPED-PANIC %v", p)}
 			}
 		}()
-		res, err := e.caller.Invoke("prov1", "echo", []interface{}{muxPayload(cc, n)}, reflect.TypeOf(""))
+		id := e.id
+		if id == "" {
+			id = "prov1"
+		}
+		res, err := e.caller.Invoke(id, "echo", []interface{}{muxPayload(cc, n)}, reflect.TypeOf(""))
 		if err != nil {
 			r = muxRet{kind: "err", err: err.Error()}
 			return
@@ -345,6 +391,34 @@ func c09Reverse(t *tr.Writer, id int, c c09Case) {
 			}(cc)
 		}
 		wg.Wait()
+	case "rcall-first":
+		// the very first calls to a provider id that has just connected, issued by several goroutines at the
+		// same instant (a barrier releases them): each gets its own result. c.Calls provider ids.
+		e, err := newRevEnv(t, c, 0, 2*time.Second, nil)
+		if err != nil {
+			t.Emit(tr.Rec{"ev": "setup-failed", "err": err.Error()})
+			return
+		}
+		defer e.close()
+		e.start()
+		for n := 1; n <= c.Calls; n++ {
+			x := e.addProvider(fmt.Sprintf("fresh%d", n))
+			time.Sleep(3 * time.Millisecond) // its first poll is with the caller
+			var arrived int32
+			var wg sync.WaitGroup
+			for cc := 1; cc <= c.Callers; cc++ {
+				wg.Add(1)
+				go func(cc int) {
+					defer wg.Done()
+					t.Emit(tr.Rec{"ev": "callB", "c": cc, "n": n})
+					atomic.AddInt32(&arrived, 1)
+					for spin := 0; atomic.LoadInt32(&arrived) < int32(c.Callers) && spin < 20000000; spin++ {
+					}
+					x.invokeBegun(cc, n, 2500)
+				}(cc)
+			}
+			wg.Wait()
+		}
 	case "rcall-idlestop":
 		e, err := newRevEnv(t, c, 5*time.Millisecond, 2*time.Second, nil)
 		if err != nil {
